@@ -362,6 +362,7 @@ class Run(object):
         self.errors = []
         self.loop_specs = {}
         self.stubs = {}
+        self.expr_hooks = {}
         self.functions = {}     # qualname -> {'sha256':..., 'role': 'contract'|'inlined'}
         self.assumptions = set()
         self.notes = []
@@ -490,6 +491,14 @@ class VC(object):
         from .interp import resolve
         obj = resolve(func) if isinstance(func, str) else func
         self.run.loop_specs[(_fkey(obj), ordinal)] = (invariant, havoc, decreases, on_exit)
+
+    def abstract_expr(self, func, regex, handler):
+        """Replace the call expression of `func` whose source text matches `regex` by `handler(interp, node, match)`
+        (an assumed contract for that expression; list it in TRUSTED)."""
+        import re
+        from .interp import resolve
+        obj = resolve(func) if isinstance(func, str) else func
+        self.run.expr_hooks.setdefault(_fkey(obj), []).append((re.compile(regex), handler))
 
     # running real code
     def call(self, target, *args, **kwargs):
